@@ -176,6 +176,7 @@ class Frame:
 
 class Interp:
     def __init__(self, prefix, registry, opts=None):
+        CURRENT[0] = self
         self.dec = list(prefix)
         self.forkable = [False] * len(prefix)
         self.nalts = [2] * len(prefix)
@@ -223,6 +224,9 @@ class Interp:
     def bool(self, base):
         return z3.Bool(self.fresh_name(base))
 
+    def tm(self, base):
+        return Tm(z3.Real(self.fresh_name(base)))
+
     def fl(self, base, may_nan=False):
         n = self.fresh_name(base)
         return Fl(z3.Real(n), z3.Bool(n + "?nan") if may_nan else FALSE)
@@ -263,6 +267,32 @@ class Interp:
 
     def assume(self, fml):
         self._assert(fml)
+
+    # ---- pointwise facts over integer indices (sequences): same scheme as for keys
+    def add_idx(self, i):
+        lst = self.__dict__.setdefault("idxs", [])
+        for e in lst:
+            if e.eq(i):
+                return
+        lst.append(i)
+        for f in self.__dict__.setdefault("pwi", []):
+            self._assert(f(i))
+
+    def idx(self, base):
+        i = z3.Int(self.fresh_name(base))
+        self.add_idx(i)
+        return i
+
+    def skolem_idx(self):
+        if getattr(self, "_skolem_i", None) is None:
+            self._skolem_i = self.idx("i*")
+        return self._skolem_i
+
+    def assume_pwi(self, f):
+        """assume forall i:Int. f(i); instantiated on every index term of the path"""
+        self.__dict__.setdefault("pwi", []).append(f)
+        for i in list(self.__dict__.setdefault("idxs", [])):
+            self._assert(f(i))
 
     def assume_pw(self, f):
         """assume forall k. f(k)   (f: z3 key term -> formula); instantiated on all keys of the path"""
@@ -704,6 +734,9 @@ class Interp:
                     self.frames.pop()
             if "_items" in f and attr in ("items", "keys", "values", "get", "copy"):
                 return BoundMethod(f["_items"], attr)
+            mm = self.registry.get("method:%s.%s" % (o.cls, attr)) or self.registry.get("method:*.%s" % attr)
+            if mm is not None:
+                return BoundMethod(("model", mm, o), attr)
             v = self.unmodelled_attr(o, attr)
             if v is not None:
                 return v
@@ -960,6 +993,8 @@ class Interp:
         from . import models
         if isinstance(f, BoundMethod):
             r = f.recv
+            if isinstance(r, tuple) and r and r[0] == "model":
+                return r[1](self, [r[2]] + list(args), kwargs)       # trusted model of a library method (A3/A4)
             if isinstance(r, Obj) and r.kind == "rec" or isinstance(r, RowRef):
                 return self.call_repo(r.cls, f.name, r, args, kwargs)
             return models.call_method(self, r, f.name, args, kwargs)
@@ -991,6 +1026,8 @@ class Interp:
             return False
         if isinstance(v, In):
             return v.v != 0
+        if isinstance(v, Tm):
+            return True
         if isinstance(v, Fl):
             return z3.Or(v.nan, v.v != 0)
         if isinstance(v, str):
